@@ -114,8 +114,7 @@ def run_case(desc):
         if desc["wrap"] == "iet":
             call = multiannot.build_iet_call(desc, rng)
         else:
-            c = poolcase.build(dict(desc, cmode="none" if desc["wrap"] == "saw" else None))
-            why = poolcase.domain(c)
+            c, why = poolcase.build_in_domain(dict(desc, cmode="none" if desc["wrap"] == "saw" else None))
             if why:
                 return {"status": "skip", "skip_reason": why}
             call = c05._build_call(c, desc, desc["wrap"], rng)
